@@ -119,8 +119,9 @@ def build_state(case, mode='exact'):
     for j, r in enumerate(case['rows']):
         x, y = h.row({'x': r, 'y': 0})
         rows.append(x)
-        if j == 0:
-            ex.explain_one(x, y)       # seen_samples 0 -> only stores
+        if j == 0 or case.get('warm', True):
+            # the realistic explain-then-update loop: the imputer has been used while the storage kept changing
+            ex.explain_one(x, y)
         else:
             ex.update_storage(x, y)
     x, y = h.row({'x': case['x'], 'y': case['y']})
@@ -134,8 +135,6 @@ def run_enum_incremental(case):
     except Exception as e:
         return Result(False, key=f'C04:setup:{type(e).__name__}', detail=repr(e))
     stored = list(h.storage.get_data()[0])
-    if len(stored) != len(rows):
-        return Result(True, nontrivial=False, labels=['storage_smaller_than_rows'])
     names = h.names
     n_inner = case['cfg']['n_inner']
     strategy = case['cfg']['imputer']['strategy']
@@ -156,6 +155,8 @@ def run_enum_incremental(case):
                 exp[n] = exp[n] + p * contrib[n]
     except rng.NotEnumerable as e:
         return Result(True, nontrivial=False, labels=['not_enumerable'], detail=str(e))
+    except TypeError as e:
+        return Result(True, nontrivial=False, labels=['exact_arithmetic_unsupported'], detail=str(e))
     if case['cls'] == 'pfi':
         want = pfi_expectation(model_ref, loss_ref, x, y, names, stored)
         biased = pfi_expectation(model_ref, loss_ref, x, y, names, stored,
@@ -164,6 +165,9 @@ def run_enum_incremental(case):
     else:
         pred = model_ref.pure(x)
         mp = ref.MultiStat(True, Q(1))
+        if case.get('warm', True):
+            for r in rows[1:]:          # label history of the explained warm-up calls (alpha = 1: values forgotten, labels kept)
+                mp.add(model_ref.pure(r))
         mp.add(pred)
         L0 = loss_ref(y, mp.normalized())
         want, _ = sage_expectation(model_ref, loss_ref, x, y, names, stored, strategy, n_inner, L0)
@@ -222,6 +226,8 @@ def run_enum_batch(case):
                 exp[n] = exp[n] + p * vals[n]
     except rng.NotEnumerable as e:
         return Result(True, nontrivial=False, labels=['not_enumerable'], detail=str(e))
+    except TypeError as e:
+        return Result(True, nontrivial=False, labels=['exact_arithmetic_unsupported'], detail=str(e))
     preds = [model.pure(x) for x in xs]
     mp = ref.mean_output(preds)
     want = {n: Q(0) for n in names}
@@ -441,13 +447,16 @@ def inc_cases(draw):
         if d == 3 and n_inner == 2:
             m = 2
     names = draw(cfgs.names_st(d))
-    rows = draw(st.lists(st.lists(st.integers(-3, 3), min_size=d, max_size=d), min_size=m, max_size=m, unique_by=tuple))
+    storage = draw(st.sampled_from([{'cls': 'batch', 'k': m}, {'cls': 'interval', 'k': m}, {'cls': 'uniform', 'k': m},
+                                    {'cls': 'geometric', 'k': m, 'p': None}, {'cls': 'interval', 'k': m}]))
+    # beyond capacity: windows slide, reservoirs replace (BatchStorage keeps everything, so no extra rows there)
+    n_rows = m + (0 if storage['cls'] == 'batch' else draw(st.sampled_from([0, 1, 2, 3])))
+    rows = draw(st.lists(st.lists(st.integers(-3, 3), min_size=d, max_size=d), min_size=n_rows, max_size=n_rows, unique_by=tuple))
     cfg = {'d': d, 'names': names, 'dynamic': True, 'alpha': '1', 'n_inner': n_inner,
-           'storage': draw(st.sampled_from([{'cls': 'batch', 'k': m}, {'cls': 'interval', 'k': m}, {'cls': 'uniform', 'k': m},
-                                            {'cls': 'geometric', 'k': m, 'p': None}])),
+           'storage': storage,
            'imputer': {'kind': 'marginal', 'strategy': strategy}, 'model': draw(cfgs.model_st(d)), 'loss': draw(cfgs.loss_st()),
            'lbib': False, 'seeds': [0, 0], 'mode': 'exact', 'stream': []}
-    return {'cls': cls, 'cfg': cfg, 'rows': rows, 'x': [draw(st.integers(-3, 3)) for _ in range(d)], 'y': draw(st.integers(-3, 3))}
+    return {'cls': cls, 'cfg': cfg, 'rows': rows, 'warm': draw(st.sampled_from([True, True, False])), 'x': [draw(st.integers(-3, 3)) for _ in range(d)], 'y': draw(st.integers(-3, 3))}
 
 
 def _batch_leaves(how, d, n, ni):
